@@ -7,7 +7,7 @@
 //! Queries are chosen without ties (never equidistant from two edges / faces with different answers).
 //! Ill-conditioned part: points far along a surface point's normal but (nearly) on the normal line, points 1e-7 .. 1e-2
 //! off mesh edges with oblique offsets, a UV-mapped mesh (uv_with_tol with Some(T) / uv_to_3d), all under translations up to 1e3.
-//! ROUND 3: (a) 36 isometries with TINY non-zero rotations (1e-7 .. 1e-5 rad) on data FAR from the origin (radius 1e3): point
+//! ROUND 3: (a) 49 isometries close to the identity (rotations 1e-8 .. 1e-5 rad, also with translations of only 1e-8) on data FAR from the origin (radius 1e3): point
 //! lists, point clouds (points move by the full isometry, normals rotate), surface points, planes, curves, meshes (box, its
 //! triangle soup, touching appended boxes); (a') Mesh::transform on meshes with COINCIDENT vertices under all 76 isometries:
 //! vertex i of T(mesh) == T * vertex i, faces unchanged; (b) 2D signed deviations (metrology::line_profiles) 1e-7 .. 1e-2 off
@@ -598,17 +598,23 @@ fn uv_mapped_mesh(r: &mut Report, isos: &[I3]) {
 /// rotation matrix from the identity by less than 1e-5) about 3 axes, with and without a translation
 pub fn tiny_isos3() -> Vec<I3> {
     let axes = [("z", u3(0.0, 0.0, 1.0)), ("x", u3(1.0, 0.0, 0.0)), ("(1,2,3)", u3(1.0, 2.0, 3.0))];
-    let angs = [1.0e-7, -1.0e-6, 3.0e-6, 1.0e-5];
+    let angs = [1.0e-8, 1.0e-7, -1.0e-6, 3.0e-6, 1.0e-5];
     let trans = [(0.0, 0.0, 0.0), (0.5, -0.25, 2.0), (1000.0, -500.0, 250.0)];
     let mut out = vec![];
     for (an, ax) in axes.iter() { for a in angs { for (x, y, z) in trans {
         out.push(I3 { name: format!("T=[rotation by {:?} rad about {} then +({},{},{})]", a, an, x, y, z), t: Iso3::from_parts(Translation3::new(x, y, z), UnitQuaternion::from_axis_angle(ax, a)), exact: false });
     } } }
+    // motions that are close to the identity in BOTH parts: no rotation / 1e-8 rad with a translation of 1e-8 (visible on data near
+    // the origin: 1e-8 against a tolerance of 1e-9 * (1 + size))
+    for (x, y, z) in [(1.0e-8, 0.0, 0.0), (0.0, -1.0e-8, 1.0e-8)] {
+        out.push(I3 { name: format!("T=[no rotation, +({:?},{:?},{:?})]", x, y, z), t: Iso3::from_parts(Translation3::new(x, y, z), UnitQuaternion::identity()), exact: false });
+        out.push(I3 { name: format!("T=[rotation by 1e-8 rad about (1,2,3) then +({:?},{:?},{:?})]", x, y, z), t: Iso3::from_parts(Translation3::new(x, y, z), UnitQuaternion::from_axis_angle(&u3(1.0, 2.0, 3.0), 1.0e-8)), exact: false });
+    }
     out
 }
 fn tiny_isos2() -> Vec<I2> {
     let mut out = vec![];
-    for a in [1.0e-7, -1.0e-6, 3.0e-6, 1.0e-5] { for (x, y) in [(0.0, 0.0), (3.0, -1.5), (1000.0, -250.0)] {
+    for a in [1.0e-8, 1.0e-7, -1.0e-6, 3.0e-6, 1.0e-5] { for (x, y) in [(0.0, 0.0), (1.0e-8, -1.0e-8), (3.0, -1.5), (1000.0, -250.0)] {
         out.push(I2 { name: format!("T=[rotation by {:?} rad then +({},{})]", a, x, y), t: Iso2::from_parts(Translation2::new(x, y), UnitComplex::new(a)) });
     } }
     out
@@ -692,10 +698,11 @@ fn tiny_rotations_far_data(r: &mut Report) {
         r.check(mc.count() == c3.count() && mc.points().iter().zip(c3.points().iter()).all(|(a, b)| cp3(a, &(t * b))), "Curve3::transformed_by moves every vertex by T", || format!("Curve3 {:?} {}", c3.points().iter().map(|p| (p.x, p.y, p.z)).collect::<Vec<_>>(), it.name));
         for (mname, base) in meshes.iter() {
             mesh_moves(r, mname, base, it, s);
-            // closest points on the moved mesh (queries 1.5 .. 3 from the surface, tie-free)
+            // closest points on the moved mesh (queries 1.5 .. 3 from the surface; tie-free: the closest point is interior to a
+            // face of ONE box - never over the seam of the touching boxes - or on the diagonal of one rectangular face)
             let mut moved = base.clone(); moved.transform(t);
             let c = base.vertices().iter().fold(Vector3::zeros(), |a, p| a + p.coords) / base.vertices().len() as f64;
-            for off in [Vector3::new(0.25, 0.5, 4.0), Vector3::new(-3.5, 0.25, -0.5), Vector3::new(0.25, 4.0, 0.75)] {
+            for off in [Vector3::new(0.4375, 0.5, 4.0), Vector3::new(-3.5, 0.25, -0.5), Vector3::new(0.4375, 4.0, 0.75)] {
                 let q = Point3::from(c + off); let tq = t * q;
                 let dq = || format!("{} {} query {:?}", mname, it.name, q.coords.as_slice());
                 r.check(cp3(&moved.point_closest_to(&tq), &(t * base.point_closest_to(&q))), "Mesh::point_closest_to commutes with T", dq);
@@ -847,7 +854,7 @@ fn capped_queries_near_bbox_corners(r: &mut Report, isos: &[I3]) {
 }
 
 pub fn run() -> Option<Report> {
-    let mut r = Report::new("isometries: 19 rotations (identity, quarter turns about x/y/z, 3 more cube-group elements, 30/45 degrees about an axis, 0.7 rad about (1,2,3), (1,1,1)->x) x 4 translations (up to (1000,-500,250)) in 3D, 8 rotations x 3 translations in 2D; entities with small integer / dyadic coordinates: 3 surface points per dimension, 4 planes, 3 segments, a 4-point cloud (with/without normals and colours), 5 Distance2 (direction None / explicit / against a->b), 7 Curve2 and 7 Curve3 point lists (open, closed, force-closed, vertices spaced 0.7..1.2 tol along axes and diagonals), a 2x3x4 box mesh (solid and not) with 7 tie-free queries; 3-4 query points per entity; all comparisons to 1e-9 relative; ILL-CONDITIONED: planar_distance / scalar_projection of points 10, 40, -75 along the normal and 0, 1e-6, 1e-5, 1e-4 off the normal line (3 surface points per dimension); signed deviations (ToPoint; ToPlane on rim edges) of points 1e-7, 3e-6, 1e-5, 1e-4, 1e-3, 1e-2 off box edges / a box corner / rim edges and a rim corner of an open roof mesh with offsets oblique to the face normal (below 1e-6 only rim edges); a UV-mapped open roof mesh with 5 queries x 3 (max_dist, max_angle): uv_with_tol with Some(T), on the moved mesh, and back through uv_to_3d; all under the same 76 isometries, 1e-9 absolute; ROUND 3: 36 isometries with TINY non-zero rotations (1e-7, -1e-6, 3e-6, 1e-5 rad about z / x / (1,2,3) x translations none, (0.5,-0.25,2), (1000,-500,250)) and 12 such in 2D, on data far from the origin (7 points with normals at radius 1e3 and one near it, a Curve3 / Curve2 there, 3 planes, meshes: box 2x3x4 at (600,0,800), its triangle soup, two touching appended boxes at (-640,0,-768), a solid box at the origin): every bulk transform (points move by the full isometry, normals only rotate, T^-1 restores, composition) and closest points on the moved mesh; all entity checks of the first part repeated under these tiny isometries; Mesh::transform on meshes with coincident vertices (triangle soups of the box and of the open roof, touching appended boxes, a box appended to itself) under all 76 isometries: vertex count kept, vertex i == T * vertex i, faces and solid flag kept, inverse, composition; point_curve2_deviation / line_surface_deviations of points 1e-7 (edge interiors only), 3e-6, 1e-5, 1e-4, 1e-3, 1e-2 off 5 outside corners / 2 open ends (offsets strictly inside the cone of the edge normals) and 4 edge interiors of a closed square and an open polyline under 7 rotations x 4 translations (up to 1e3): deviation invariant and equal to the signed distance (1e-9 absolute), reference point moves, direction rotates (1e-9 + rounding of the offset direction); Mesh::project_with_max_dist / project_with_tol (direct, Some(T), moved) / indices_in_tol for queries 0.01, 0.05, 0.2 outside the 8 corners (3 directions inside the normal cone) and 8 edges of 4 boxes (2x3x4 solid and not, 16x1x0.5, 3x3x3) with caps 0.025, 0.1, 0.5 under all 76 isometries: found exactly when the distance is within the cap, in every frame");
+    let mut r = Report::new("isometries: 19 rotations (identity, quarter turns about x/y/z, 3 more cube-group elements, 30/45 degrees about an axis, 0.7 rad about (1,2,3), (1,1,1)->x) x 4 translations (up to (1000,-500,250)) in 3D, 8 rotations x 3 translations in 2D; entities with small integer / dyadic coordinates: 3 surface points per dimension, 4 planes, 3 segments, a 4-point cloud (with/without normals and colours), 5 Distance2 (direction None / explicit / against a->b), 7 Curve2 and 7 Curve3 point lists (open, closed, force-closed, vertices spaced 0.7..1.2 tol along axes and diagonals), a 2x3x4 box mesh (solid and not) with 7 tie-free queries; 3-4 query points per entity; all comparisons to 1e-9 relative; ILL-CONDITIONED: planar_distance / scalar_projection of points 10, 40, -75 along the normal and 0, 1e-6, 1e-5, 1e-4 off the normal line (3 surface points per dimension); signed deviations (ToPoint; ToPlane on rim edges) of points 1e-7, 3e-6, 1e-5, 1e-4, 1e-3, 1e-2 off box edges / a box corner / rim edges and a rim corner of an open roof mesh with offsets oblique to the face normal (below 1e-6 only rim edges); a UV-mapped open roof mesh with 5 queries x 3 (max_dist, max_angle): uv_with_tol with Some(T), on the moved mesh, and back through uv_to_3d; all under the same 76 isometries, 1e-9 absolute; ROUND 3: 49 isometries close to the identity: TINY non-zero rotations (1e-8, 1e-7, -1e-6, 3e-6, 1e-5 rad about z / x / (1,2,3) x translations none, (0.5,-0.25,2), (1000,-500,250)) plus translations of 1e-8 with no rotation / 1e-8 rad, and 20 such in 2D, on data far from the origin (7 points with normals at radius 1e3 and one near it, a Curve3 / Curve2 there, 3 planes, meshes: box 2x3x4 at (600,0,800), its triangle soup, two touching appended boxes at (-640,0,-768), a solid box at the origin): every bulk transform (points move by the full isometry, normals only rotate, T^-1 restores, composition) and closest points on the moved mesh; all entity checks of the first part repeated under these tiny isometries; Mesh::transform on meshes with coincident vertices (triangle soups of the box and of the open roof, touching appended boxes, a box appended to itself) under all 76 isometries: vertex count kept, vertex i == T * vertex i, faces and solid flag kept, inverse, composition; point_curve2_deviation / line_surface_deviations of points 1e-7 (edge interiors only), 3e-6, 1e-5, 1e-4, 1e-3, 1e-2 off 5 outside corners / 2 open ends (offsets strictly inside the cone of the edge normals) and 4 edge interiors of a closed square and an open polyline under 7 rotations x 4 translations (up to 1e3): deviation invariant and equal to the signed distance (1e-9 absolute), reference point moves, direction rotates (1e-9 + rounding of the offset direction); Mesh::project_with_max_dist / project_with_tol (direct, Some(T), moved) / indices_in_tol for queries 0.01, 0.05, 0.2 outside the 8 corners (3 directions inside the normal cone) and 8 edges of 4 boxes (2x3x4 solid and not, 16x1x0.5, 3x3x3) with caps 0.025, 0.1, 0.5 under all 76 isometries: found exactly when the distance is within the cap, in every frame");
     let i3 = isos3(); let i2 = isos2();
     surface_points3(&mut r, &i3);
     surface_points2(&mut r, &i2);
